@@ -13,7 +13,11 @@
                           otherwise only its length, capped at the limit); msgs = [(0,0,0,Data)]
                           observed Data on success when has_data = 1
      7 gzip encode      : bytes = data, zs = [], msgs = [(0,0,0, compressed bytes)] (oracle
-                          input: output of the Go compressor) -> input = produced bytes *)
+                          input: output of the Go compressor) -> input = produced bytes
+     8 unencrypted decode into a used value: msgs = [(0,0,0, old MessageData)];
+                          zs = [id; restlen], bytes = MessageData afterwards
+     9 result decode into a used value: msgs = [(0,0,0, old Result)]; zs = [id], bytes = Result
+    10 container decode into a used value: zs = [restlen; n_old]; msgs = old messages ++ messages afterwards *)
 From Coq Require Import List ZArith Bool.
 From TD Require Import Lib.RunLib Lib.Bytes Lib.GoSem Lib.GoSlice Gen.ProtoConsts Model.TlPrim Model.ProtoMsg.
 Import ListNotations.
@@ -64,9 +68,33 @@ Definition ok (c : case) : bool :=
       | r => status =? res_code r
       end
     else status =? decode_gzip_code head (nthz zs 1) serr input
-  else
+  else if mode =? 7 then
     match msgs with
     | [(_, _, _, gz)] => zlist_eqb (encode_gzip (fun _ => gz) bytes) input
     | _ => false
+    end
+  else if mode =? 8 then
+    match msgs with
+    | [(_, _, _, old)] =>
+      match decode_unencrypted_into old input with
+      | Ok (id, data, rest) => (status =? 0) && (id =? nthz zs 0) && zlist_eqb data bytes && (len rest =? nthz zs 1)
+      | r => status =? res_code r
+      end
+    | _ => false
+    end
+  else if mode =? 9 then
+    match msgs with
+    | [(_, _, _, old)] =>
+      match decode_result_into old input with
+      | Ok (id, body, rest) => (status =? 0) && (id =? nthz zs 0) && zlist_eqb body bytes && (len rest =? 0)
+      | r => status =? res_code r
+      end
+    | _ => false
+    end
+  else
+    let n_old := Z.to_nat (nthz zs 1) in
+    match decode_container_into (map of_mobs (firstn n_old msgs)) input with
+    | Ok (ms, r) => (status =? 0) && list_eqb mobs_eqb (map to_mobs ms) (skipn n_old msgs) && (len r =? nthz zs 0)
+    | r => status =? res_code r
     end.
 Definition mismatches (cs : list case) : list nat := mismatch_idx ok cs.
